@@ -30,3 +30,27 @@ def limbs(n, bits=12):
         out.append(n & m)
         n >>= bits
     return out
+
+
+def cov_flush():
+    """development aid: a forked child that ends with os._exit saves its line-coverage data first (no-op unless the recorder runs under
+    harness/coverage_report.py's VERIF_COVERAGE mode)"""
+    if not os.environ.get("VERIF_COVERAGE"):
+        return
+    try:
+        import coverage
+        cov = coverage.Coverage.current()
+        if cov is not None:
+            cov.stop()
+            cov.save()
+    except Exception:
+        pass
+
+
+def pool_map(func, jobs, chunksize=1, procs=16):
+    """multiprocessing.Pool(procs).map, or a plain map in the line-coverage mode (pool workers do not save coverage data)"""
+    if os.environ.get("VERIF_COVERAGE"):
+        return [func(j) for j in jobs]
+    import multiprocessing
+    with multiprocessing.Pool(procs) as pool:
+        return pool.map(func, jobs, chunksize=chunksize)
